@@ -3,7 +3,9 @@ import EgoVerif.C13.Model
 /- line protocol:
    `file <block>;<block>;…`   block = `<name>:<kind>:<junk>:<leak>:<brace>`
       kind  P pass | A assertFail | R runtimeErr | C compileErr | F @fail
-      leak  `-` or comma separated handler addresses (0 = spent)     brace 0 | 1 missing `}` | 2 extra `}`
+      leak  `-` or comma separated handler addresses (0 = spent)
+      brace 0 braced | 1 missing `}` | 2 extra `}` | 3 bare statements | 4 / 6 braced / bare with an `@compile eof=`
+            whose marker is missing | 5 / 7 braced / bare with an `@compile eof=` span that ends at its marker
    → `<name>=P|F,…|run=ok|stopped`  (lines printed, in order; whether Run() failed)
    The model runs the whole pipeline: tokens → split at @test → compile → VM. -/
 namespace EgoVerif.C13
